@@ -281,8 +281,8 @@ class ParserScenario:
             m = re.match(r'^json_parser::<impl at [^>]*>::(\w+)$', name)
             if m and m.group(1) != 'can_recover':
                 inl.append((r'JsonParserUtils>::%s(::<\d+>)?$|JsonParser>::%s$' % (m.group(1), m.group(1)), '^' + re.escape(name) + '$'))
-            m = re.match(r'^reader::<impl at [^>]*>::(next|peek|eat_whitespace|read_digits|where_am_i)$', name)
-            if m:
+            m = re.match(r'^reader::<impl at [^>]*>::(\w+)$', name)
+            if m and not re.match(r'^(new|from_\w+|fmt|clone|drop|default|eq|hash)$', m.group(1)) and ctx.fns[name].params and 'Reader' in ctx.fns[name].params[0][1]:
                 inl.append((r'Reader::<.*>::%s$' % m.group(1), '^' + re.escape(name) + '$'))
         self.extra = []
         return ctx.exec(summaries=self.extra_summaries + summ, inline=self.extra_inline + inl, max_visits=self.max_visits or 4 * self.n + 12)
